@@ -87,6 +87,16 @@ class Tup(V):
         self.key = "(" + ",".join(i.key for i in self.items) + ",)"
 
 
+class Vec(Tup):
+    """Small numeric array literal (np.array([...])): arithmetic is elementwise, unlike a Python tuple."""
+
+    __slots__ = ()
+
+    def __init__(self, items):
+        Tup.__init__(self, items)
+        self.key = "vec" + self.key
+
+
 class Star(V):
     __slots__ = ("inner",)
 
